@@ -12,6 +12,7 @@ import (
 
 	"github.com/pkg/errors"
 	"github.com/pkg/xattr"
+	"golang.org/x/sys/unix"
 )
 
 // NewLocalFS initializes a new instance of a local filesystem that
@@ -96,6 +97,19 @@ func (fs *LocalFS) SetSymlinkPermissions(n NodeSymlink) error {
 		}
 	}
 
+	return nil
+}
+
+// setSymlinkTimes sets the modification (and access) time of the link itself,
+// not of what it points to.
+func (fs *LocalFS) setSymlinkTimes(dst string, mtime time.Time) error {
+	ts, err := unix.TimeToTimespec(mtime)
+	if err != nil {
+		return err
+	}
+	if err := unix.UtimesNanoAt(unix.AT_FDCWD, dst, []unix.Timespec{ts, ts}, unix.AT_SYMLINK_NOFOLLOW); err != nil {
+		return &os.PathError{Op: "utimensat", Path: dst, Err: err}
+	}
 	return nil
 }
 
